@@ -323,9 +323,9 @@ class Run:
         if os.path.exists(outp):
             os.remove(outp)
         tier = self.tier
-        budget = self.cfg.get("%s_budget_ms" % tier, 8000 if tier == "quick" else 120000)
+        budget = h.get("%s_budget_ms" % tier, self.cfg.get("%s_budget_ms" % tier, 8000 if tier == "quick" else 120000))
         if deep:
-            budget = self.cfg.get("thorough_budget_ms", 120000)
+            budget = h.get("thorough_budget_ms", self.cfg.get("thorough_budget_ms", 120000))
         budget = int(os.environ.get("VERIF_BUDGET_MS", budget))
         env = dict(GOENV, VERIF_SEED=str(self.seed), VERIF_TIER=tier, VERIF_DRIVER=self.driver or "",
                    VERIF_OUT=outp, VERIF_CORPUS=os.path.join(VERIF, "corpus", self.prop),
